@@ -57,7 +57,8 @@ LISTED = [1, 2, 3, 1, 2, 3, 1, 2, 3, 4, 5]
 PRESENTED = [None, None, None, 1, 2, 3, 1, 2, 3, 4, 5, 6]
 DIRMARK = "zzdir"
 SEG = ["app", "app2", "ap", "public", "pub", "admin", "docs", "s", "x y", "é", "index.gmi", "index.gemini", "secret.gmi", "a.txt", "index", "app.gmi",
-       "e\u0301", "\u00e9x", "\u2126"]      # (not in normalisation form C: locations and prefixes are compared code point by code point)
+       "e\u0301", "\u00e9x", "\u2126",      # (not in normalisation form C: locations and prefixes are compared code point by code point)
+       "p;q", "old;v=1"]                     # (';' is an ordinary character of a Gemini path: such a directory is a place like any other)
 
 
 # ----------------------------------------------------------------------------------------------
@@ -168,7 +169,89 @@ def gen_rules(rnd: random.Random, ents):
 
 
 def spell(rnd: random.Random, loc: str, is_dir: bool, rules) -> str:
-    """one spelling of the canonical location `loc` (a directory location ends in '/')"""
+    """one spelling of the canonical location `loc` (a directory location ends in '/'), or - a sixth of the time - a
+    look-alike of one: the spelling escaped ONCE MORE (its own escapes are escaped; after the one percent-decoding a
+    request path gets it denotes a name that contains a '%', not `loc`), or a spelling with path parameters (';…') in
+    segments that lie BEFORE the part that decides the rule (for Gemini ';' is an ordinary character of a name: such a
+    segment followed by '..' is cancelled as a whole)"""
+    s = _spell1(rnd, loc, is_dir, rules)
+    k = rnd.random()
+    if k < 0.08:
+        s = escape_again(rnd, s)
+    elif k < 0.17:
+        s = with_params(rnd, s, rules)
+    return s
+
+
+def _cut(s: str):
+    """(path, rest) of a spelling: the query / fragment stays as it is"""
+    i = min([j for j in (s.find("?"), s.find("#")) if j >= 0] or [len(s)])
+    return s[:i], s[i:]
+
+
+def escape_again(rnd: random.Random, s: str) -> str:
+    """escape the escapes of a spelling (all of them, or some; the '%' itself and/or the two hex digits)"""
+    path, rest = _cut(s)
+    if "%" not in path:
+        k = rnd.random()
+        if k < 0.35:
+            path = T._enc_some(rnd, path)
+        elif k < 0.55:
+            path = "/".join(rnd.choice(["%2e%2e", "%2E%2e", ".%2e"]) if p == ".." else p for p in path.split("/"))
+        elif k < 0.70:
+            path = "/" + path[1:].replace("/", rnd.choice(["%2f", "%2F"]))
+        if "%" not in path:
+            # at least one character of one name (the first one of a segment, most of the time)
+            cand = [i for i, c in enumerate(path) if c != "/" and (path[i - 1] == "/" or rnd.random() < 0.15)] or [i for i, c in enumerate(path) if c != "/"]
+            if cand:
+                i = rnd.choice(cand)
+                path = path[:i] + "".join("%%%02x" % b for b in path[i].encode("utf-8", "surrogatepass")) + path[i + 1:]
+    out, i, thorough = [], 0, rnd.random() < 0.6
+    while i < len(path):
+        c = path[i]
+        if c == "%" and (thorough or rnd.random() < 0.6):
+            k = rnd.random()
+            if k < 0.7 or i + 2 >= len(path):
+                out.append("%25")                                    # %73 -> %2573
+            elif k < 0.85:
+                out.append("%" + "".join("%%%02x" % ord(d) for d in path[i + 1:i + 3]))      # %73 -> %%37%33
+                i += 2
+            else:
+                out.append("%25" + "".join("%%%02X" % ord(d) for d in path[i + 1:i + 3]))    # %73 -> %25%37%33
+                i += 2
+        else:
+            out.append(c)
+        i += 1
+    if "".join(out) == path:
+        out = [path.replace("%", "%25", 1)]
+    return "".join(out) + rest
+
+
+PARAMS = ["", "v=2", "x", "size=3;mime=text/plain", "token=t", ";", "p=1;q=/"]
+
+
+def with_params(rnd: random.Random, s: str, rules) -> str:
+    """path parameters in the spelling, in front of the segments that name the resource"""
+    path, rest = _cut(s)
+    parts = path.split("/")[1:]                                      # (may hold '', '.', '..' and escapes)
+    names = ["pub", "public", "app", "zz", "", "index.gmi"] + [p for r in (rules or []) for p in r[0].split("/") if p][:6] + [p for p in parts if p not in ("", ".", "..")]
+    up = rnd.choice(["..", "..", "..", "%2e%2e", ".%2E"])
+    k = rnd.random()
+    if k < 0.55:                                                     # <name>;<params>/.. at any depth
+        i = rnd.randint(0, max(0, len(parts) - 1))
+        parts = parts[:i] + [rnd.choice(names) + ";" + rnd.choice(PARAMS), up] + parts[i:]
+    elif k < 0.70:                                                   # the same, two levels deep
+        i = rnd.randint(0, max(0, len(parts) - 1))
+        parts = parts[:i] + [rnd.choice(names) + ";" + rnd.choice(PARAMS), rnd.choice(names), up, up] + parts[i:]
+    elif k < 0.85 and len(parts) > 1:                                # on a segment of the resource's own path that is not the last
+        i = rnd.randrange(len(parts) - 1)
+        parts[i] += ";" + rnd.choice(PARAMS)
+    else:                                                            # on the last one
+        parts[-1] += ";" + rnd.choice(PARAMS)
+    return "/" + "/".join(parts) + rest
+
+
+def _spell1(rnd: random.Random, loc: str, is_dir: bool, rules) -> str:
     base = loc
     parts = [p for p in base.split("/") if p]
     k = rnd.random()
